@@ -201,7 +201,6 @@ class SchemaValidator:
                         'Duplicate argument "%s" on directive "@%s"'
                         % (arg.name, directive.name)
                     )
-                    continue
 
                 if not is_input_type(arg.type):
                     self.add_error(
@@ -230,7 +229,6 @@ class SchemaValidator:
                     'Duplicate field "%s" on "%s"'
                     % (field.name, composite_type)
                 )
-                continue
 
             if not is_output_type(field.type):
                 self.add_error(
@@ -249,7 +247,6 @@ class SchemaValidator:
                     self.add_error(
                         'Duplicate argument "%s" on "%s"' % (arg.name, path)
                     )
-                    continue
 
                 if not is_input_type(arg.type):
                     self.add_error(
@@ -506,7 +503,6 @@ class SchemaValidator:
                 self.add_error(
                     'Duplicate field "%s" on "%s"' % (field.name, input_object)
                 )
-                continue
 
             if not is_input_type(field.type):
                 self.add_error(
